@@ -522,9 +522,12 @@ def holder_commitment_claims(S, D):
     cltv2 = rd2('cltv_expiry', 'u32').t
     toi2 = rd2('transaction_output_index', 'Option<u32>')
     idx2 = E2.en_payload(toi2, 'Some', 1, 0, 'u32', mem2, 'spec').t
+    # an HTLC still pending when the commitment confirms has not expired yet (otherwise the monitor would have gone on
+    # chain before, C08.g); also keeps the two candidate heights distinguishable in the replay
+    E2.assume(conf_height.t < cltv2)
     pre2 = [X.zint(toi2.d) == 1]
     panic2 = z3.Or(*[X.zbool(p[0]) for p in E2.panics]) if E2.panics else False
-    b2 = Binding('holder_claim_probe', [z3.If(off2, 1, 0), z3.IntVal(1), z3.If(X.zint(toi2.d) == 1, 1, 0)], [None, z3.If(off2, 1, 0)], which='oracle_tu', panic=panic2,
+    b2 = Binding('holder_claim_probe', [z3.If(off2, 1, 0), z3.IntVal(1), z3.If(X.zint(toi2.d) == 1, 1, 0)], [None, z3.If(p_height.t == conf_height.t, 1, z3.If(p_height.t == cltv2, 0, 9))], which='oracle_tu', panic=panic2,
                  domain=[(0, 1), (1, 1), (1, 1)], line_fn=two)
     S.prove(ids[2], E2, pre2, z3.And(ret2, g_pk, p_vout.t == idx2, ident(E2, p_txid) == z3.Int('ident.the_txid'),
                                      p_height.t == z3.If(off2, conf_height.t, cltv2)),
